@@ -27,8 +27,8 @@ class LoggedFile(io.RawIOBase):
     """file handle whose seek/read pairs are recorded as (offset, requested, returned)"""
     def __init__(self, path):
         super().__init__()
-        self._f = open(path, 'rb')
-        self.name = path
+        self._f = path if hasattr(path, 'read') else open(path, 'rb')     # a path, or a (virtual) file object
+        self.name = getattr(path, 'name', path)
         self.log = []
         self.plan = None
         self._pos = 0
@@ -85,7 +85,8 @@ class LoggedBlob:
     """stands in for azure.storage.blob.BlobClient (public constructor path: hasattr(file,'download_blob'))"""
     def __init__(self, path, delay=None):
         self.path = path
-        self.blob_name = path
+        self.virtual = path if hasattr(path, 'read') else None      # a (virtual) file object instead of a path
+        self.blob_name = getattr(path, 'name', path)
         self.log = []
         self.plan = None
         self.lock = threading.Lock()
@@ -105,9 +106,14 @@ class LoggedBlob:
             if self.delay is not None:
                 import time
                 time.sleep(self.delay(offset, length))
-            with open(self.path, 'rb') as f:
-                f.seek(offset)
-                data = f.read(length)
+            if self.virtual is not None:
+                with self.lock:
+                    self.virtual.seek(offset)
+                    data = self.virtual.read(length)
+            else:
+                with open(self.path, 'rb') as f:
+                    f.seek(offset)
+                    data = f.read(length)
             if kind == 'short' and len(data) > 0:
                 data = data[:max(0, len(data) - max(1, len(data) // 3))]
                 self.plan.fired.append((k, kind, offset, length))
